@@ -107,6 +107,7 @@ fn exec_overrun(g: &mut dyn G, o: &Overrun, n: usize) -> Result<(), String> {
                     TNode { id: 1, parent: Some(0), label: Some(Lab::Alpha(0)), data: None, read: false },
                 ],
                 extras: vec![],
+                pairs_first: false,
             });
             let _ = g.merge(&*h, *left, 0);
         }
@@ -200,19 +201,123 @@ fn pick_overrun(d: &mut Driver, sel: (u8, u16, u16)) -> Option<Overrun> {
 
 /// Anything goes: raw calls with ids up to cap+2, every call under catch_unwind, the same
 /// graph is used on after a panic. Returns (calls, panics).
+/// Text for Hex::from_str / Label::from_str built from seeds: n hex digits with a dash
+/// pattern, or arbitrary characters.
+fn seed_text(a: u16, b: u16, c: u16) -> String {
+    const CH: [char; 16] = ['0', '9', 'a', 'F', '-', '-', 'α', 'ρ', '𝜑', ' ', 'x', '+', '7', 'Z', '中', '\u{a0}'];
+    let n = (a % 48) as usize;
+    let mut s = String::new();
+    if c & 1 == 0 {
+        for i in 0..n {
+            s.push(['0', '1', '8', '9', 'a', 'c', 'E', 'F'][((b as usize >> (i % 13)) ^ i) & 7]);
+            // dashes: none, canonical (after every pair), or a sparse pattern
+            match (c >> 1) & 3 {
+                1 if i % 2 == 1 && i + 1 < n => s.push('-'),
+                2 if (b >> (i % 16)) & 1 == 1 => s.push('-'),
+                _ => {}
+            }
+        }
+    } else {
+        for i in 0..n.min(24) {
+            s.push(CH[((b as usize >> (i % 12)) + i * (c as usize >> 3)) & 15]);
+        }
+    }
+    s
+}
+
+/// Calls of the value types' own API (Hex, Label) under catch_unwind: their results are
+/// not judged here (C15–C17 do that), only the sanitizer listens.
+fn misc_api(a: u16, b: u16, c: u16) -> bool {
+    use std::str::FromStr;
+    catch_unwind(AssertUnwindSafe(|| {
+        let t = seed_text(a, b, c);
+        if let Ok(h) = sodg::Hex::from_str(&t) {
+            let _ = (h.len(), h.print(), h.to_vec(), h.to_i64().ok(), h.to_f64().ok(), h.to_utf8().ok());
+            let other = hex_of(&crate::gen::data_bytes(b, c));
+            let j = h.concat(&other).concat(&h);
+            let _ = j.tail((a as usize) % (j.len() + 1)).print();
+            let _ = catch_unwind(AssertUnwindSafe(|| j[(a as usize % 20)..(b as usize % 20)].to_vec()));
+            let _ = catch_unwind(AssertUnwindSafe(|| j.byte_at(c as usize % 40)));
+        }
+        if let Ok(l) = sodg::Label::from_str(&t) {
+            let _ = (l.to_string(), format!("{l:?}"));
+            let mut g = new_graph(2, 3);
+            g.add(0);
+            g.add(1);
+            g.bind(0, 1, l);
+            let _ = (g.kid(0, l), g.to_xml().map(|x| x.len()), g.to_dot().len(), g.inspect(0).map(|x| x.len()));
+        }
+    }))
+    .is_err()
+}
+
+/// Scenario: far beyond the group-count limit, at large ids. 14 groups are formed on low
+/// ids, then `extra` more pairs of ungrouped vertices with large ids are bound (each bind
+/// is outside the limits; panics are tolerated), then the graph is cloned, printed, saved
+/// and sliced. Returns the number of tolerated panics.
+fn exhaust_groups(n: usize, cap: usize, extra: usize, seed: u16) -> u64 {
+    let mut g = new_graph(n, cap);
+    let mut panics = 0u64;
+    let mut call = |f: &mut dyn FnMut(&mut Box<dyn G>), g: &mut Box<dyn G>| {
+        if catch_unwind(AssertUnwindSafe(|| f(g))).is_err() {
+            panics += 1;
+        }
+    };
+    for i in 0..14 {
+        call(&mut |g| { g.add(2 * i); g.add(2 * i + 1); g.bind(2 * i, 2 * i + 1, Lab::Alpha(0).direct()); g.put(2 * i, &hex_of(&[i as u8; 9])); }, &mut g);
+    }
+    let top = cap - 1;
+    for j in 0..extra {
+        let (x, y) = (top - 2 * j, top - 2 * j - 1);
+        if y < 30 {
+            break;
+        }
+        let swap = (seed >> (j % 16)) & 1 == 1;
+        call(&mut |g| { g.add(x); g.add(y); if swap { g.bind(y, x, Lab::Alpha(0).direct()) } else { g.bind(x, y, Lab::Alpha(0).direct()) } }, &mut g);
+    }
+    let mut c2: Option<Box<dyn G>> = None;
+    call(&mut |g| { c2 = Some(g.clone_box()); }, &mut g);
+    call(&mut |g| { let _ = (g.debug(), g.keys(), g.to_xml().map(|x| x.len())); }, &mut g);
+    if let Some(mut c) = c2 {
+        call(&mut |g| { let _ = g.debug(); let _ = g.data(0); let _ = g.data(2); }, &mut c);
+    }
+    call(&mut |g| { let p = crate::interp::tmp_file("c07x"); let _ = g.save(&p).and_then(|_| g.load_same(&p)).map(|l| l.debug()); let _ = std::fs::remove_file(&p); }, &mut g);
+    call(&mut |g| { let _ = g.slice(top).map(|s| s.debug()); let _ = g.inspect(top); }, &mut g);
+    for i in 0..14 {
+        call(&mut |g| { let _ = g.data(2 * i); }, &mut g);
+    }
+    call(&mut |g| { let _ = (g.debug(), g.keys()); }, &mut g);
+    panics
+}
+
 pub fn run_raw(cfg: Cfg, ops: &[RawOp]) -> (u64, u64) {
     let mut g = new_graph(cfg.n, cfg.cap);
     let labels = pool();
     let mut panics = 0u64;
     let mut calls = 0u64;
     let span = cfg.cap + 3;
+    // one sequence in 8 starts with the group-exhaustion scenario on a larger store
+    if let Some((k, a, b, _)) = ops.first() {
+        if k % 8 == 0 {
+            let cap = [64usize, 300, 400, 600][(*a as usize) % 4];
+            panics += exhaust_groups(cfg.n, cap, 4 + (*b as usize % 20), *a ^ *b);
+            calls += 40;
+        }
+    }
     for (k, a, b, c) in ops {
         let (x, y) = (*a as usize % span, *b as usize % span);
         let l = labels[*c as usize % labels.len()].direct();
         calls += 1;
         let mut replacement: Option<Box<dyn G>> = None;
         let gr = &mut g;
-        let r = catch_unwind(AssertUnwindSafe(|| match k % 24 {
+        if k % 32 >= 24 {
+            // value-type API (Hex::from_str with and without dashes, Label::from_str, concat, tail, ranges)
+            if misc_api(*a, *b, *c) {
+                panics += 1;
+            }
+            continue;
+        }
+        let r = catch_unwind(AssertUnwindSafe(|| match k % 32 {
             0 | 1 | 2 => gr.add(x),
             3..=7 => gr.bind(x, y, l),
             8 | 9 => gr.put(x, &hex_of(&crate::gen::data_bytes(*b, *c))),
